@@ -1,5 +1,120 @@
+/-
+  C05 — factorizations multiply back and have the promised structure.
+
+  Every factorization returned by the library is judged per output by `LP.Driver.Factor` / `LP.Model.Factor`:
+  exact product (with the constant and multiplicities), square-freeness and pairwise coprimality by verified
+  Bezout certificates (univariate) or non-vanishing discriminants / resultants in every variable (multivariate),
+  complete factorization over F_p by trial division, and over ℤ by comparison with the irreducible building blocks
+  of the input, each re-certified irreducible by the model (irreducible modulo a prime not dividing the leading
+  coefficient, or Kronecker).  Proved here, for all inputs:
+  * `toPolyZ` is a ring homomorphism on the list arithmetic used for the product check, so an accepted product
+    check is an identity in ℤ[X] (`C05_product_sound`);
+  * an accepted square-freeness certificate implies `Squarefree` in ℚ[X] (`C05_sqfree_cert_sound`), an accepted
+    coprimality certificate implies `IsCoprime` (C03).
+  `_partial`: irreducibility certificates (mod p, Kronecker, trial division over F_p) and the multivariate
+  discriminant criterion are executable checks whose classical justification is not formalised; uniqueness of
+  factorization (that the certified blocks are *the* factorization) is Mathlib's UFD theory, not instantiated here.
+-/
 import LP.Props.C03
-import LP.Model.Factor
+import LP.Props.RootCount
+import LP.Driver.Factor
+import Mathlib.FieldTheory.Separable
+
 namespace LP
-theorem C05_placeholder : True := trivial
+open Polynomial
+
+namespace Factor
+
+/-- the integer polynomial denoted by a coefficient list (low degree first) -/
+noncomputable def toPolyZ : List Int → ℤ[X]
+  | [] => 0
+  | c :: p => C c + X * toPolyZ p
+
+theorem toPolyZ_nil : toPolyZ [] = 0 := rfl
+theorem toPolyZ_cons (c : ℤ) (p : List Int) : toPolyZ (c :: p) = C c + X * toPolyZ p := rfl
+
+theorem toPolyZ_add (p q : List Int) : toPolyZ (zAdd p q) = toPolyZ p + toPolyZ q := by
+  induction p generalizing q with
+  | nil => simp [zAdd, toPolyZ_nil]
+  | cons a p ih =>
+    cases q with
+    | nil => simp [zAdd, toPolyZ_nil]
+    | cons b q =>
+      simp only [zAdd, toPolyZ_cons, ih, map_add]
+      ring
+
+theorem toPolyZ_smul (c : ℤ) (p : List Int) : toPolyZ (zSmul c p) = C c * toPolyZ p := by
+  induction p with
+  | nil => simp [zSmul, toPolyZ_nil]
+  | cons a p ih =>
+    have : zSmul c (a :: p) = (c * a) :: zSmul c p := rfl
+    rw [this, toPolyZ_cons, toPolyZ_cons, ih, map_mul]
+    ring
+
+theorem toPolyZ_mul (p q : List Int) : toPolyZ (zMul p q) = toPolyZ p * toPolyZ q := by
+  induction p with
+  | nil => simp [zMul, toPolyZ_nil]
+  | cons a p ih =>
+    simp only [zMul, toPolyZ_add, toPolyZ_smul, toPolyZ_cons, ih]
+    simp
+    ring
+
+theorem toPolyZ_pow (p : List Int) (n : ℕ) : toPolyZ (zPow p n) = toPolyZ p ^ n := by
+  induction n with
+  | zero => simp [zPow, toPolyZ_cons, toPolyZ_nil]
+  | succ n ih => rw [zPow, toPolyZ_mul, ih, pow_succ]; ring
+
+theorem toPolyZ_append_zero (p : List Int) : toPolyZ (p ++ [0]) = toPolyZ p := by
+  induction p with
+  | nil => simp [toPolyZ_cons, toPolyZ_nil]
+  | cons a p ih => rw [List.cons_append, toPolyZ_cons, toPolyZ_cons, ih]
+
+theorem toPolyZ_trim (p : List Int) : toPolyZ (zTrim p) = toPolyZ p := by
+  unfold zTrim
+  have gen : ∀ r : List Int, toPolyZ ((r.dropWhile (· = 0)).reverse) = toPolyZ r.reverse := by
+    intro r
+    induction r with
+    | nil => rfl
+    | cons a r ih =>
+      by_cases h : a = 0
+      · rw [List.dropWhile_cons_of_pos (by simpa using h), ih, List.reverse_cons, h, toPolyZ_append_zero]
+      · rw [List.dropWhile_cons_of_neg (by simpa using h)]
+  have := gen p.reverse
+  rwa [List.reverse_reverse] at this
+
+/-- product of the factors with multiplicities, as computed by the driver -/
+theorem toPolyZ_product (c : ℤ) (fs : List (List Int × ℕ)) :
+    toPolyZ (LP.Driver.zProduct c fs) = C c * (fs.map (fun fm => toPolyZ fm.1 ^ fm.2)).prod := by
+  unfold LP.Driver.zProduct
+  have gen : ∀ (fs : List (List Int × ℕ)) (acc : List Int),
+      toPolyZ (fs.foldl (fun acc fm => zMul acc (zPow fm.1 fm.2)) acc) =
+        toPolyZ acc * (fs.map (fun fm => toPolyZ fm.1 ^ fm.2)).prod := by
+    intro fs
+    induction fs with
+    | nil => intro acc; simp
+    | cons fm fs ih =>
+      intro acc
+      rw [List.foldl_cons, ih, toPolyZ_mul, toPolyZ_pow, List.map_cons, List.prod_cons]
+      ring
+  rw [gen fs [c]]
+  simp [toPolyZ_cons, toPolyZ_nil]
+
+/-- **product check**: what the driver accepts is an identity in ℤ[X] -/
+theorem C05_product_sound (f : List Int) (c : ℤ) (fs : List (List Int × ℕ))
+    (h : zTrim (LP.Driver.zProduct c fs) = zTrim f) :
+    toPolyZ f = C c * (fs.map (fun fm => toPolyZ fm.1 ^ fm.2)).prod := by
+  rw [← toPolyZ_product, ← toPolyZ_trim f, ← h, toPolyZ_trim]
+
+end Factor
+
+namespace QPoly
+
+/-- **square-freeness certificate**: a verified Bezout identity between q and q' makes q separable, hence square-free -/
+theorem C05_sqfree_cert_sound (q : QPoly) (h : coprimeCert q (QPoly.derivative q) = true) :
+    Squarefree (toPoly q) := by
+  have hc := C03_coprimeCert_sound q (QPoly.derivative q) h
+  rw [toPoly_derivative] at hc
+  exact (show (toPoly q).Separable from hc).squarefree
+
+end QPoly
 end LP
